@@ -274,7 +274,9 @@ pub fn write_step(rng: &mut Rng, ki: Option<usize>, vi: usize, len: u64, cfg: &W
                 o["algo"] = json!(algo);
             }
             if rng.below(100) < cfg.declare_size_pct {
-                o["size"] = json!(len);
+                // mostly the true size; sometimes one that the data will not match (the commit must be rejected and
+                // leave every lookup as it was)
+                o["size"] = if rng.chance(1, 6) { json!(if len > 0 && rng.chance(1, 2) { len - 1 } else { len + 1 + rng.below(3) }) } else { json!(len) };
             }
             if cfg.rich_opts && keyed {
                 if rng.chance(1, 2) {
